@@ -10,7 +10,9 @@ TIE = {"Load": ["h_load_build", "h_load_buildSchedule", "h_load_parseScheduleMap
                 "h_load_parseMiscs", "h_load_loadVariables", "h_load_parseKeyValue", "h_load_buildEnvs",
                 "h_load_decode", "h_load_unmarshalData", "h_load_loadYAML", "h_load_loadDAG",
                 "h_load_assertNoNullElements", "h_load_parseCron", "h_load_convertValue",
-                "defStructs"]}
+                "defStructs"],
+       # the daemon's entry reader is a caller of the loader that must survive whatever the loader says
+       "Cron": ["h_cron_Read", "h_cron_initDags", "h_cron_watchDags", "h_cron_newEntryReader"]}
 
 ENTRIES = ["LoadYAML", "LoadMetadata", "LoadWithoutEval", "Load"]
 
@@ -421,7 +423,49 @@ def mutate_text(r, txt):
     return bytes(b)
 
 
+def daemon_survives_stream(chk):
+    """'... never crashes the calling process (server, scheduler DAEMON or CLI)': the scheduler daemon's entry reader loads
+    definitions at start-up and whenever the watcher sees a file created / written. Daemon simulations of the C09 stream
+    with invalid, unloadable and changing files (real entryReader, real watcher) are run here for C13's clause: a file the
+    loader rejects - or anything else in the DAGs directory - must not bring the daemon's tick down."""
+    import p_c09
+    binp, out = common.build_harness("cron")
+    if not binp:
+        chk.oblige("harness-build:cron", False, out[-2000:]); return
+    rng = chk.rng
+    cases = [c for c in p_c09.corpus() if c.get("k") == "sim" and c.get("flavour") != "corpus-last"][:12]
+    flav = ["invalid"] * 3 + ["events"] * 3 + ["mixed"] * 2
+    for i in range(24 if chk.tier == "quick" else 240):
+        cases.append(p_c09.gen_sim(rng, "v%d" % i, flav[i % len(flav)]))
+    try:
+        rc, hlines, herr = p_c09.run_harness(binp, cases)
+    except p_c09.HarnessHang:
+        chk.oblige("harness-run:cron (daemon stream for C13)", False, "the daemon harness did not come back"); return
+    houts = p_c09.split_outputs(cases, [l.replace(" !drain-timeout", "") for l in hlines])
+
+    class Proxy:
+        """routes the daemon monitor's crash verdicts to C13; everything else is C09's business"""
+        def __init__(self, chk): self.chk = chk; self.nontrivial = chk.nontrivial
+        def violation(self, sig, what, rep):
+            if "crash" in sig or "dies" in sig or "dead" in sig or "panic" in sig:
+                self.chk.violation("C13:scheduler-daemon-brought-down-by-a-definition:" + sig.split(":", 1)[1], what, {"daemon_case": rep})
+        def oblige(self, *a, **k): pass
+    px = Proxy(chk)
+    counters = {k: 0 for k in ("sim_ticks", "dag_ticks", "dead", "start_calls", "stop_calls", "restart_calls", "start_schedule_matches",
+                               "match_but_suspended", "match_but_running", "match_but_started_same_minute", "match_but_started_later",
+                               "match_and_due", "stop_schedule_matches", "restart_schedule_matches")}
+    n = 0
+    for c, ho in zip(cases, houts):
+        try:
+            p_c09.monitor_sim(px, c, ho, counters); n += 1; chk.evaluations += 1
+        except (ValueError, IndexError, KeyError):
+            pass
+    chk.stats = dict(getattr(chk, "stats", None) or {}, daemon_runs=n)
+
+
 def run(chk, replay):
+    if replay and "daemon_case" in json.load(open(replay)).get("case", {}):
+        daemon_survives_stream(chk); return
     chk.trusted = common.TRUSTED_COMMON + [
         "gopkg.in/yaml.v2 (the model starts at the untyped tree; duplicate keys: last wins) and the harness's YAML emitter",
         "mapstructure's decode of the `definition` shape is modelled (BdModel/Load/Decode.lean) and validated differentially",
@@ -536,6 +580,7 @@ def run(chk, replay):
                     regress_bad.append("%s/%s: %s" % (name, e, impl_str(res)[:80]))
         chk.oblige("regression: the %d former witnesses are rejected with an error / accepted in a sound state" % len(REGRESSION),
                    not regress_bad, "; ".join(regress_bad)[:1500])
+        daemon_survives_stream(chk)
     chk.disagreements_checked = chk.disagreements
     if lines and dis == 0:
         chk.oblige("correspondence:load (outcome class, panic site and DAG facts: impl = model on every tree and entry point)", True)
